@@ -181,7 +181,16 @@ unsafe impl<T, N: ArrayLength> GenericSequence<T> for Box<GenericArray<T, N>> {
                 if size_of::<GenericArray<MaybeUninit<T>, N>>() == 0 {
                     ptr::NonNull::dangling().as_ptr()
                 } else {
-                    alloc::alloc::alloc(Layout::new::<GenericArray<MaybeUninit<T>, N>>()).cast()
+                    let layout = Layout::new::<GenericArray<MaybeUninit<T>, N>>();
+                    let ptr = alloc::alloc::alloc(layout);
+
+                    // allocation failure must go through the standard error path,
+                    // never create a reference to the null block
+                    if ptr.is_null() {
+                        alloc::alloc::handle_alloc_error(layout);
+                    }
+
+                    ptr.cast()
                 };
 
             // If `f` panics the builder below drops the elements written so far, but the
